@@ -260,6 +260,22 @@ pub struct ChainCoderHeads<Word: BitArray, State: BitArray, const PRECISION: usi
 impl<Word: BitArray, State: BitArray, const PRECISION: usize>
     ChainCoderHeads<Word, State, PRECISION>
 {
+    /// Verification hook (only with `--cfg constriction_verif`): assembles heads from raw parts
+    /// so that single-step contracts can start from an arbitrary invariant-satisfying state.
+    #[cfg(constriction_verif)]
+    pub fn from_raw_parts_for_verification(compressed: Word::NonZero, remainders: State) -> Self {
+        Self {
+            compressed,
+            remainders,
+        }
+    }
+
+    /// Verification hook (only with `--cfg constriction_verif`): disassembles heads.
+    #[cfg(constriction_verif)]
+    pub fn into_raw_parts_for_verification(self) -> (Word::NonZero, State) {
+        (self.compressed, self.remainders)
+    }
+
     /// Returns `true` iff there's currently an integer amount of `Words` on `compressed`
     #[inline(always)]
     pub fn is_whole(self) -> bool {
